@@ -72,6 +72,10 @@ def configs(tier, seed):
                         continue
                     fk = "+".join("_".join(map(str, f)) for f in fs) or "none"
                     out.append(dict(h="faults", op=layout, key=f"faults/{name}/{layout}/{fk}/am={int(am)}/ae={int(ae)}", ds=name, layout=layout, faults=[list(f) for f in fs], am=am, ae=ae))
+        # two imports in one process over same-named dimensions with other item orders (no state may leak)
+        if len(DIMSETS[name]) >= 1 and n <= 6:
+            for (am, ae) in FLAGS:
+                out.append(dict(h="two_imports", op="two", key=f"two_imports/{name}/am={int(am)}/ae={int(ae)}", ds=name, layout="long_cols", faults=[], am=am, ae=ae))
         # the readers forward their flags
         for reader in ("csv", "excel"):
             for (am, ae) in FLAGS:
@@ -231,10 +235,46 @@ def _build(cfg, w):
                             wide_partial=bool(removed_item_cols))
 
 
+def _two_imports(cfg, w):
+    import pandas as pd
+    from flodym import FlodymArray, Dimension, DimensionSet
+
+    spec = DIMSETS[cfg["ds"]]
+    am, ae = cfg["am"], cfg["ae"]
+
+    def dims_with(order):
+        return DimensionSet(dim_list=[Dimension(name=N, letter=l, items=[items[i] for i in (order(len(items)))], dtype=dt) for (l, N, items, dt) in spec])
+
+    first = dims_with(lambda n: list(range(n)))
+    second = dims_with(lambda n: list(range(n))[::-1])
+    for tag, ds in (("first", first), ("second_reversed_items", second)):
+        X = w.arr("x_" + tag, ds.shape, default=lambda idx: 20.5 + 1.25 * sum((k + 1) * 3 ** k * i for k, i in enumerate(idx)))
+        for k in numeric_items(cfg["ds"]):
+            for v_ in X.flat:
+                w.assume(w.or_(w.lt(v_, k), w.ge(v_, k + 1)))
+        if X.size > 4:
+            w.assume_distinct(X)
+        rows = []
+        for idx in np.ndindex(*ds.shape):
+            rows.append([d.items[i] for d, i in zip(ds, idx)] + [X[idx]])
+        df = pd.DataFrame(rows, columns=[d.name for d in ds] + ["value"])
+        if w.sym:
+            df["value"] = df["value"].astype(object)
+        df = df.iloc[1:] if am else df  # with allow_missing: first combination missing -> zero
+        y = FlodymArray.from_df(dims=ds, df=df, allow_missing_values=am, allow_extra_values=ae)
+        for n_, idx in enumerate(np.ndindex(*ds.shape)):
+            if am and n_ == 0:
+                w.ob(f"{tag}:missing_is_zero{list(idx)}", w.eq(y.values[idx], 0))
+            else:
+                w.ob(f"{tag}:entry_under_its_labels{list(idx)}", w.same(y.values[idx], X[idx]))
+
+
 def run(cfg, w):
     import pandas as pd
     from flodym import FlodymArray, Parameter
 
+    if cfg["h"] == "two_imports":
+        return _two_imports(cfg, w)
     dims, X, df, v = _build(cfg, w)
     am, ae = cfg["am"], cfg["ae"]
     spec = DIMSETS[cfg["ds"]]
